@@ -7,8 +7,9 @@ from typing import Any, Callable, Iterable, Optional
 
 from .. import absint
 from ..core import Ctx, PropSpec
-from ..rules import (calls_in, cfg_of, cond_implies, construct, dominating_conditions, is_call_to, kwarg, loop_nodes,
-                     method_call, norm, origin, origin_src, suspensions_from, witness)
+from ..rules import (calls_in, cfg_of, construct, dominating_conditions, is_call_to, kwarg, loop_nodes, method_call, norm, origin,
+                     origin_src, suspensions_from, table_check, witness)
+from ..rules import cond_implies as _cond_implies
 from ..srcmodel import AnalysisError, dotted, src, walk_no_defs
 
 D = 'kopf._core.engines.daemons'
@@ -20,6 +21,27 @@ STAGES = ('DAEMON_SIGNALLED', 'DAEMON_CANCELLED', 'DAEMON_ABANDONED')
 
 
 # ====================================================================== small local helpers
+_fn_of_node: dict = {}
+
+
+def cond_implies(test: ast.AST, outcome: bool, pred: Callable[[ast.AST, bool], bool], fn=None, _depth: int = 0) -> bool:
+    """``rules.cond_implies`` that also looks through a condition named into a single-assignment local
+    (`gone = t == 'DELETED'; if gone:`) -- the engine's version treats such a Name as an opaque atom."""
+    if isinstance(test, ast.UnaryOp) and isinstance(test.op, ast.Not):
+        return cond_implies(test.operand, not outcome, pred, fn, _depth)
+    if isinstance(test, ast.BoolOp):
+        if isinstance(test.op, ast.And) and outcome:
+            return any(cond_implies(v, True, pred, fn, _depth) for v in test.values)
+        if isinstance(test.op, ast.Or) and not outcome:
+            return any(cond_implies(v, False, pred, fn, _depth) for v in test.values)
+        return False
+    if isinstance(test, ast.Name) and fn is not None and _depth < 3:
+        o = origin(fn, test, 1)
+        if o is not test and isinstance(o, (ast.BoolOp, ast.UnaryOp, ast.Compare, ast.Call, ast.Name)):
+            return cond_implies(o, outcome, pred, fn, _depth + 1)
+    return _cond_implies(test, outcome, pred)
+
+
 def _param_of_type(repo, f, cls: str) -> Optional[str]:
     """Name of the (single) parameter of ``f`` annotated with class ``cls``."""
     hits = [a.arg for a in f.params() if repo.ann_class(f.module, a.annotation) == cls]
@@ -253,7 +275,7 @@ def check_spawn_and_runner(ctx: Ctx) -> None:
         def absent(e: ast.AST, o: bool) -> bool:
             t = _in_test(e, o)
             return t is not None and t[2] is False and src(t[0]) == key_s and src(t[1]) == reg_s
-        guards = [bn for t, o, bn in dominating_conditions(g, cn) if cond_implies(t, o, absent)]
+        guards = [bn for t, o, bn in dominating_conditions(g, cn) if cond_implies(t, o, absent, f)]
         ctx.ob('R9.1', f'spawn_daemons: a runner task is created only under `{key_s} not in {reg_s}`', bool(guards),
                loc=f.loc(cn.stmt), construct=construct(f, 'guard:create-under-id-not-in-registry'),
                detail='' if guards else 'no dominating membership test of the handler id in the registry')
@@ -274,10 +296,12 @@ def check_spawn_and_runner(ctx: Ctx) -> None:
                'return bypasses the registration)', not leaked, loc=f.loc(cn.stmt), construct=construct(f, 'flow:create->register'),
                detail='; '.join(witness(g, [cn], n, regs) for n in leaked[:2]))
         # the registered value is the record holding that task
-        val_ok = all(cn is rn or cn in g.reach_back([rn]) for rn in regs) and all(
-            isinstance(rn.stmt.value, ast.Name) or rn is cn for rn in regs)
-        ctx.ob('R9.1', 'spawn_daemons: the registration follows the task creation', val_ok, loc=f.loc(regs[0].stmt),
-               construct=construct(f, 'order:create<register'))
+        def holds_the_task(rn) -> bool:
+            v = origin(f, rn.stmt.value)
+            return isinstance(v, ast.Call) and DAEMON_CLS in repo.callee_names(f, v) and kwarg(v, 'task') is not None \
+                and any(x is call for x in ast.walk(kwarg(v, 'task')))
+        ctx.ob('R9.1', 'spawn_daemons: what is registered under the handler id is the Daemon record holding the task just created',
+               all(holds_the_task(rn) for rn in regs), loc=f.loc(regs[0].stmt), construct=construct(f, 'flow:registered-record-holds-the-task'))
 
     # R9.3 CONFIG (premise of the `stopper.reason is None` test): the record and the cause share ONE stopper
     shared = []
@@ -293,10 +317,10 @@ def check_spawn_and_runner(ctx: Ctx) -> None:
 
     # ------------------------------------------------------------------ R9.2 PAIR: owner = _runner
     reg_p = [a.arg for a in rf.params() if _is_registry(repo, rf, ast.Name(id=a.arg, ctx=ast.Load()))]
-    hnd_p = [a.arg for a in rf.params() if a.arg == 'handler']
-    if len(reg_p) != 1 or not hnd_p:
+    hnd_p = _param_of_type(repo, rf, 'kopf._core.intents.handlers.SpawningHandler')
+    if len(reg_p) != 1 or hnd_p is None:
         raise AnalysisError(f'{rf.loc()}: _runner has no registry/handler parameters')
-    rkey = f'{hnd_p[0]}.id'
+    rkey = f'{hnd_p}.id'
     rdels = rg.stmt_nodes(lambda x: isinstance(x, ast.Delete) and any(
         isinstance(t, ast.Subscript) and dotted(t.value) == reg_p[0] and src(t.slice) == rkey for t in x.targets))
     ctx.require_sites('R9.2', f'_runner: release `del {reg_p[0]}[{rkey}]`', len(rdels), 1, rf.loc())
@@ -357,7 +381,7 @@ def check_spawn_and_runner(ctx: Ctx) -> None:
         return False
     add_nodes = rg.stmt_nodes(lambda x: any(x is n for fn, n in adds if fn is rf))
     for an in add_nodes:
-        ok = any(cond_implies(t, o, on_its_own) for t, o, _ in dominating_conditions(rg, an))
+        ok = any(cond_implies(t, o, on_its_own, rf) for t, o, _ in dominating_conditions(rg, an))
         call = [n for fn, n in adds if fn is rf and any(n is x for x in walk_no_defs(an.stmt))][0]
         arg_ok = len(call.args) == 1 and src(call.args[0]) == rkey
         ctx.ob('R9.3', '_runner: a handler is marked as stopped forever only under `stopper.reason is None` (nobody asked it to stop)', ok,
@@ -365,8 +389,7 @@ def check_spawn_and_runner(ctx: Ctx) -> None:
         ctx.ob('R9.3', '_runner: the id marked as stopped forever is the id of the handler that has just exited', arg_ok, loc=rf.loc(an.stmt),
                construct=construct(rf, 'config:forever_stopped.add(handler.id)'))
     if rdels and add_nodes:
-        esc = rg.escaping_exits([rg.entry], [n for n in rg.nodes if n.kind == 'if' and any(
-            cond_implies(n.stmt.test, True, on_its_own) for _ in [0])])
+        esc = rg.escaping_exits([rg.entry], [n for n in rg.nodes if n.kind == 'if' and cond_implies(n.stmt.test, True, on_its_own, rf)])
         ctx.ob('R9.3', '_runner: the exited-on-its-own test is evaluated on every exit', not esc, loc=rf.loc(),
                construct=construct(rf, 'allexits:reason-is-None test'))
     # consumers: every selection of spawning handlers excludes the forever-stopped ones
@@ -392,7 +415,7 @@ def check_spawn_and_runner(ctx: Ctx) -> None:
             t = _in_test(e, o)
             return t is not None and t[2] is False and dotted(t[1]) == 'excluded' and isinstance(t[0], ast.Attribute) and t[0].attr == 'id'
         for on in outs:
-            ok = any(cond_implies(t, o, not_excluded) for t, o, _ in dominating_conditions(mg, on))
+            ok = any(cond_implies(t, o, not_excluded, mf) for t, o, _ in dominating_conditions(mg, on))
             ctx.ob('R9.3', f'SpawningRegistry.{meth}: a handler counts only under `handler.id not in excluded`', ok, loc=mf.loc(on.stmt),
                    construct=construct(mf, 'guard:not-in-excluded'))
     gh = repo.fn('registries.ResourceRegistry.get_handlers') if repo.has_fn('registries.ResourceRegistry.get_handlers') else None
@@ -454,6 +477,74 @@ class StopInterp(absint.Interp):
         if awaited or (label is not None and label.split(':')[0] in ('set', 'cancel')):
             for r in self.cfg.versioned:
                 p.ver[r] = p.ver.get(r, 0) + 1
+
+
+    # ---- `match` on a tuple of conditions (local work-around: the engine keeps sequence patterns as one opaque atom,
+    # so an `elif` chain rewritten as `match (a, b is not None, ...)` would lose its branch atoms)
+    def match(self, s, p):   # type: ignore[override]
+        subj = s.subject
+        if not (isinstance(subj, ast.Tuple) and not any(isinstance(e, ast.Starred) for e in subj.elts)
+                and all(self._seq_pattern_ok(c.pattern, len(subj.elts)) for c in s.cases)):
+            return super().match(s, p)
+        out, pending = [], [p]
+        for case in s.cases:
+            nxt = []
+            for q in pending:
+                for r, hit in self._match_seq(subj, case.pattern, q):
+                    if not hit:
+                        nxt.append(r)
+                    elif case.guard is None:
+                        out.extend(self.run_block(case.body, [r]))
+                    else:
+                        for r2, gv in self.truth(case.guard, r):
+                            if gv:
+                                out.extend(self.run_block(case.body, [r2]))
+                            else:
+                                nxt.append(r2)
+            pending = nxt
+        return out + pending
+
+    def _seq_pattern_ok(self, pat: ast.AST, n: int) -> bool:
+        if isinstance(pat, ast.MatchAs) and pat.pattern is None and pat.name is None:
+            return True
+        return isinstance(pat, ast.MatchSequence) and len(pat.patterns) == n and all(
+            (isinstance(x, ast.MatchAs) and x.pattern is None and x.name is None) or isinstance(x, (ast.MatchSingleton, ast.MatchValue))
+            for x in pat.patterns)
+
+    def _is_bool(self, e: ast.AST) -> bool:
+        """Syntactically boolean, or an attribute/property declared `bool` (so that `case True` is its truth)."""
+        if self._boolish(e):
+            return True
+        if isinstance(e, ast.Attribute):
+            base = self.repo.type_of(self.f, e.value)
+            if base:
+                ci, ann = self.repo.find_field(base, e.attr)
+                if ci is not None and ann is not None:
+                    return dotted(ann) == 'bool'
+                meth = self.repo.find_method(base, e.attr)
+                if meth is not None and any(d.endswith('property') for d in meth.decorators):
+                    return dotted(meth.node.returns) == 'bool'   # type: ignore[attr-defined]
+        return False
+
+    def _match_seq(self, subj: ast.Tuple, pat: ast.AST, p):
+        if isinstance(pat, ast.MatchAs):
+            return [(p, True)]
+        results = [(p, True)]
+        for elt, sub in zip(subj.elts, pat.patterns):   # type: ignore[attr-defined]
+            nxt = []
+            for q, hit in results:
+                if not hit or isinstance(sub, ast.MatchAs):
+                    nxt.append((q, hit))
+                elif isinstance(sub, ast.MatchSingleton) and sub.value is None:
+                    nxt.extend(self.truth(ast.Compare(elt, [ast.Is()], [ast.Constant(None)]), q))
+                elif isinstance(sub, ast.MatchSingleton) and self._is_bool(elt):
+                    nxt.extend((r, b is sub.value) for r, b in self.truth(elt, q))
+                elif isinstance(sub, ast.MatchValue):
+                    nxt.extend(self.truth(ast.Compare(elt, [ast.Eq()], [sub.value]), q))
+                else:
+                    nxt.extend(self.atom(f'match({self.ev(elt, q).key}, {src(sub, 60)})', q))
+            results = nxt
+        return results
 
 
 def run_paths(repo, f, cfg: absint.Config, *, stmts=None, env=None, interp=absint.Interp) -> list:
@@ -527,7 +618,7 @@ def _stopper_roots(f, env_names: Iterable[str]) -> set:
 
 def check_staged_termination(ctx: Ctx) -> None:
     repo = ctx.repo
-    is_age = lambda k: '.when' in k                                            # noqa: E731 - the age of the stop flag
+    is_age = lambda k: 'cancellation_' not in k                                # noqa: E731 - the age of the stop flag: whatever is compared with the limits
     only_b = lambda k: 'cancellation_backoff' in k and 'cancellation_timeout' not in k   # noqa: E731
     with_t = lambda k: 'cancellation_timeout' in k                             # noqa: E731
 
@@ -709,7 +800,6 @@ def check_pausing_and_killer(ctx: Ctx) -> None:
         return None
     paths = absint.analyse(repo, pf, absint.Config(effect=eff, record_writes=False),
                            env={reg_p[0]: absint.sym('REGISTRY'), tog_p: absint.sym('PAUSED')})
-    from ..rules import table_check
     table_check(ctx, 'R9.5', pf, paths, {'N': r'isnone\(PAUSED\)', 'ON': r'truthy\(PAUSED\.is_on\(\)\)'},
                 lambda v: ('stop:REGISTRY:OPERATOR_PAUSING',) if (not v['N'] and v['ON']) else (),
                 lambda p: tuple(p.labels('stop')) if p.status == 'return' else ('status', p.status),
@@ -723,17 +813,21 @@ def check_pausing_and_killer(ctx: Ctx) -> None:
     ctx.require_sites('R9.5', 'daemon_killer: scheduler.close()', len(closes), 1, kf.loc())
     tries = [n for n in walk_no_defs(kf.node) if isinstance(n, ast.Try) and n.finalbody
              and any(is_call_to(repo, kf, c, 'aiotasks.Scheduler.close') for st in n.finalbody for c in calls_in(st))]
-    if len(tries) != 1:
-        raise AnalysisError(f'{kf.loc()}: daemon_killer: expected one try/finally closing the scheduler')
+    ctx.ob('R9.5', 'daemon_killer: the scheduler of the stoppers is closed in the `finally` of the killing loop', len(tries) == 1, loc=kf.loc(),
+           construct=construct(kf, 'sites:try-finally-close'), detail=f'found {len(tries)} try/finally statements closing the scheduler')
+    where = kf.loc(tries[0]) if tries else kf.loc()
     starts = [n for n in kg.nodes if n.suspends and not n.in_finally]
     for what, through in (('waits for the stoppers', waits), ('closes its scheduler', closes)):
         esc = kg.escaping_exits(starts, through, edge_ok=_no_exc_from_finally)
         ctx.ob('R9.5', f'daemon_killer: every exit (cancellation, exception) {what} (a second cancellation inside the finally is not modelled)',
-               not esc and bool(starts), loc=kf.loc(tries[0]), construct=construct(kf, f'allexits:{what.split()[0]}'),
+               not esc and bool(starts), loc=where, construct=construct(kf, f'allexits:{what.split()[0]}'),
                detail='; '.join(f'{e.label} via {witness(kg, starts, e, through, edge_ok=_no_exc_from_finally)}' for e in esc[:2]))
     und = kg.dominated(closes, waits)
-    ctx.ob('R9.5', 'daemon_killer: closing the scheduler (cancels the stoppers) is dominated by waiting for them', not und, loc=kf.loc(tries[0]),
+    ctx.ob('R9.5', 'daemon_killer: closing the scheduler (cancels the stoppers) is dominated by waiting for them', not und, loc=where,
            construct=construct(kf, 'order:wait<close'))
+
+    if len(tries) != 1:
+        return
 
     def keff(it, p, call, names):
         if any(n.endswith('daemons.stop_daemon') for n in names):
@@ -747,7 +841,7 @@ def check_pausing_and_killer(ctx: Ctx) -> None:
             return 'close'
         return None
     kpaths = absint.analyse(repo, kf, absint.Config(effect=keff, record_writes=False), stmts=tries[0].finalbody)
-    item = r'item\(item\(memories\.iter_all_daemon_memories\(\)\)\.running_daemons\.values\(\)\)'
+    item = r'item\(item\([^()]+\.iter_all_daemon_memories\(\)\)\.running_daemons\.values\(\)\)'   # every daemon of every memory
     bad, full = [], 0
     for p in kpaths:
         labs = [e.label for e in p.trace]
@@ -795,7 +889,7 @@ def check_loopstop(ctx: Ctx) -> None:
 
             def unset(e: ast.AST, o: bool, _s=setter) -> bool:
                 return o is False and _is_set_call(fn, e) == _s
-            asserting = {b for b in g.nodes if b.kind == 'branch' and b.cond is not None and cond_implies(b.cond[0], b.cond[1], unset)}
+            asserting = {b for b in g.nodes if b.kind == 'branch' and b.cond is not None and cond_implies(b.cond[0], b.cond[1], unset, fn)}
             for n in g.stmt_nodes(lambda x: x is call):
                 loops = [fr.stmt for fr in n.frames if fr.kind == 'loop']
                 if not loops:
@@ -852,7 +946,6 @@ def check_deleted_event(ctx: Ctx) -> None:
         return None
     cfg = absint.Config(effect=eff, record_writes=False)
     paths = absint.analyse(repo, f, cfg, env={cause_p: absint.sym('CAUSE')})
-    from ..rules import table_check
     table_check(ctx, 'R9.7', f, paths, {'M': r'truthy\(.*finalizers\.is_deletion_ongoing\((body=)?CAUSE\.body\)\)'},
                 lambda v: ('stop:RESOURCE_DELETED',) if v['M'] else ('spawn', 'match', 'pause'),
                 lambda p: tuple(e.label for e in p.trace if e.label.split(':')[0] in ('stop', 'spawn', 'match', 'pause')) if p.status == 'return' else ('status', p.status),
@@ -879,15 +972,18 @@ def check_deleted_event(ctx: Ctx) -> None:
         cands = _bound_values(ef, others[0].id) if isinstance(others[0], ast.Name) else [others[0]]
         return bool(cands) and all(isinstance(c, ast.Subscript) and isinstance(c.slice, ast.Constant) and c.slice.value == 'type' for c in cands)
     for fnode in fnodes:
-        ok = any(cond_implies(t, o, is_deleted_event) for t, o, _ in dominating_conditions(eg, fnode))
+        ok = any(cond_implies(t, o, is_deleted_event, ef) for t, o, _ in dominating_conditions(eg, fnode))
         ctx.ob('R9.7', "process_resource_event: the memory is forgotten only under `<event type> == 'DELETED'` (never for a live object with running daemons)",
                ok, loc=ef.loc(fnode.stmt), construct=construct(ef, 'guard:forget-under-DELETED'))
 
     # (b) PAIR on the owner record (D4): what is forgotten has been asked to stop -- either right there, before the
     # record is dropped, or by the cause processing of that very DELETED event (interprocedural table, depth 2)
-    def registry_stop(names: set, call: ast.Call, fn=ef) -> bool:
-        return any(n in (f'{D}.stop_daemons', f'{D}.stop_daemon') for n in names)
-    stops = eg.call_nodes(lambda names, call: registry_stop(names, call))
+    def registry_stop(x: ast.AST) -> bool:
+        if is_call_to(repo, ef, x, f'{D}.stop_daemons'):
+            d = kwarg(x, 'daemons')
+            return d is not None and _is_registry(repo, ef, d)
+        return False
+    stops = eg.stmt_nodes(registry_stop)
     stopped_first = bool(fnodes) and bool(stops) and not eg.dominated(fnodes, stops)
     cf = repo.fn(f'{P}.process_resource_causes')
     ctx.analysed(cf)
@@ -941,11 +1037,29 @@ def check(ctx: Ctx) -> None:
 SPEC = PropSpec(
     id='C09',
     title='Daemon/timer lifecycle: one instance, started on match, stopped in stages',
-    technique='static analysis',
-    level_text='',
-    level_note='',
-    design_ref='DESIGN.md §4 C09, Appendix A.9',
-    explanation='',
-    not_decided='',
+    technique='static analysis: statement CFG with cancellation/exception edges (GUARD, ATOMIC, ALLEXITS/PAIR, ORDER, LOOPSTOP as a cycle cut), '
+              'who-may-write/call (CONFINE), keyword facts (CONFIG), path-enumerated decision tables of the two staged-termination '
+              'implementations over an ordering domain (TABLE, SIBLING), interprocedural table for the DELETED event (TABLE depth 2 / PAIR)',
+    level_text='Static analysis of the current source: decides, on all CFG paths / all atom valuations, the structural clauses R9.1-R9.7: a runner task is '
+               'created only under `handler.id not in daemons` with no suspension point up to the registration (R9.1); the registry entry is released only '
+               'by its owner _runner, on every exit, after the guarded coroutine ended, and nobody else inserts/deletes (R9.2); `forever_stopped` grows only '
+               'under `stopper.reason is None`, never shrinks, and every selection of spawning handlers excludes it (R9.3); the decision tables of '
+               'stop_daemons (per daemon) and stop_daemon equal Appendix A.9 -- flag first, SIGNALLED while age < backoff, CANCELLED + task.cancel() while '
+               'age < timeout + backoff, ABANDONED afterwards, timers only polled -- and task.cancel() has exactly these two sites (R9.4); pause_daemons '
+               'follows spawn_daemons on every normal path and the killer\'s finally stops every daemon, waits, then closes (R9.5); every cycle through an '
+               'interruptible sleep on a stopper event passes a test requiring the stopper to be unset (R9.6); an object marked for deletion gets '
+               'stop_daemons, the memory is forgotten only for DELETED events (R9.7). The R9.7 clause "a DELETED event without a deletion mark still '
+               'stops the daemons" FAILS on the current tree: known finding D4.',
+    level_note='asyncio is cooperative (interleaving only at suspension points; the state of another task changes only across an await); a second '
+               'cancellation arriving inside a running `finally` is not modelled; aiotime.sleep on a set event returns without suspending; DESIGN.md §3',
+    design_ref='DESIGN.md §4 C09, Appendix A.9, Appendix B',
+    explanation='GUARD+ATOMIC on spawn_daemons; PAIR/ALLEXITS/ORDER on _runner plus CONFINE of every registry mutation in the package (registries are '
+                'recognised by their declared value type Daemon); GUARD/CONFIG/CONFINE for forever_stopped and the excluded= arguments; TABLE over one '
+                'iteration of stop_daemons (9 boolean + 2 three-valued ordering atoms, versioned across awaits) and over stop_daemon, ORDER/CONFINE for '
+                'task.cancel(); ORDER/ALLEXITS on process_spawning_cause and daemon_killer, TABLE for pause_daemons and the killer\'s finally; LOOPSTOP as '
+                '"no CFG cycle through a stopper sleep avoids every branch asserting the stopper unset" over every such sleep of the package; TABLE for the '
+                'deletion mark, GUARD/CONFINE for memories.forget, interprocedural TABLE (process_resource_causes with process_spawning_cause inlined) for D4.',
+    not_decided='"at most one instance at any time" over all timings (follows from R9.1/R9.2 only with the asyncio trusted base); the reaction of user '
+                'daemons to the flag/cancellation; all timing (ages, backoffs) as numbers; match_daemons\' selection of mismatching daemons.',
     check=check,
 )
